@@ -176,6 +176,89 @@ type Case struct {
 	N    int // instances
 	Dep  string
 	Hash string
+	// Edges, when non-nil, replaces the named pattern: {input wire, instance, source instance}: the
+	// input wire of that instance takes the value of the last wire of the source instance.
+	Edges [][3]int
+}
+
+// WithEdges returns the case with an explicit dependency pattern (named after its edges).
+func WithEdges(t *Topo, n int, hash string, edges [][3]int) *Case {
+	var sb strings.Builder
+	sb.WriteString("x")
+	for _, e := range edges {
+		fmt.Fprintf(&sb, ":w%d.%d<-%d", e[0], e[1], e[2])
+	}
+	if edges == nil {
+		edges = [][3]int{}
+	}
+	return &Case{T: t, N: n, Dep: sb.String(), Hash: hash, Edges: edges}
+}
+
+// EdgePatterns enumerates every acyclic dependency pattern with at most maxEdges edges: each
+// (input wire, instance) takes either an explicit value or the output of another instance; the
+// instance-level graph has to be acyclic (the documented domain of Series).
+func EdgePatterns(t *Topo, n, maxEdges int) [][][3]int {
+	var inW []int
+	for w, wr := range t.Wires {
+		if wr.Gate < 0 {
+			inW = append(inW, w)
+		}
+	}
+	type slot struct{ w, i int }
+	var slots []slot
+	for _, w := range inW {
+		for i := 0; i < n; i++ {
+			slots = append(slots, slot{w, i})
+		}
+	}
+	var out [][][3]int
+	var rec func(k int, cur [][3]int)
+	acyclic := func(es [][3]int) bool {
+		// Kahn on instances
+		indeg := make([]int, n)
+		for _, e := range es {
+			indeg[e[1]]++
+		}
+		done := make([]bool, n)
+		for cnt := 0; cnt < n; {
+			progress := false
+			for i := 0; i < n; i++ {
+				if !done[i] && indeg[i] == 0 {
+					done[i] = true
+					cnt++
+					progress = true
+					for _, e := range es {
+						if e[2] == i {
+							indeg[e[1]]--
+						}
+					}
+				}
+			}
+			if !progress {
+				return false
+			}
+		}
+		return true
+	}
+	rec = func(k int, cur [][3]int) {
+		if k == len(slots) {
+			if acyclic(cur) {
+				out = append(out, append([][3]int{}, cur...))
+			}
+			return
+		}
+		rec(k+1, cur)
+		if len(cur) >= maxEdges {
+			return
+		}
+		for src := 0; src < n; src++ {
+			if src != slots[k].i {
+				rec(k+1, append(cur, [3]int{slots[k].w, slots[k].i, src}))
+			}
+		}
+	}
+	rec(0, nil)
+	return out
 }
 
 func (cs *Case) String() string {
@@ -183,7 +266,18 @@ func (cs *Case) String() string {
 }
 
 // depOf returns the source instance of the dependency feeding the first input of instance i, or -1.
-func (cs *Case) depOf(i int) int {
+func (cs *Case) depOf(w, i int) int {
+	if cs.Edges != nil {
+		for _, e := range cs.Edges {
+			if e[0] == w && e[1] == i {
+				return e[2]
+			}
+		}
+		return -1
+	}
+	if w != 0 {
+		return -1
+	}
 	switch cs.Dep {
 	case DepFwd:
 		if i >= 1 {
@@ -211,7 +305,16 @@ func (cs *Case) order() []int {
 	var o []int
 	for len(o) < cs.N {
 		for i := 0; i < cs.N; i++ {
-			if !done[i] && (cs.depOf(i) < 0 || done[cs.depOf(i)]) {
+			if done[i] {
+				continue
+			}
+			ready := true
+			for w, wr := range cs.T.Wires {
+				if wr.Gate < 0 && cs.depOf(w, i) >= 0 && !done[cs.depOf(w, i)] {
+					ready = false
+				}
+			}
+			if ready {
 				done[i] = true
 				o = append(o, i)
 			}
@@ -229,7 +332,7 @@ func (cs *Case) Slots() [][2]int {
 			continue
 		}
 		for i := 0; i < cs.N; i++ {
-			if w == 0 && cs.depOf(i) >= 0 {
+			if cs.depOf(w, i) >= 0 {
 				continue
 			}
 			s = append(s, [2]int{w, i})
@@ -251,8 +354,8 @@ func (cs *Case) Ref(q *big.Int, in []*big.Int) [][]*big.Int {
 	for _, i := range cs.order() {
 		for w, wr := range cs.T.Wires {
 			if wr.Gate < 0 {
-				if w == 0 && cs.depOf(i) >= 0 {
-					vals[w][i] = vals[last][cs.depOf(i)]
+				if cs.depOf(w, i) >= 0 {
+					vals[w][i] = vals[last][cs.depOf(w, i)]
 				}
 				continue
 			}
@@ -333,9 +436,14 @@ func (cs *Case) Build(withOracle bool) (nSecret int, def func(api frontend.API, 
 			}
 		}
 		last := nW - 1
-		for i := 0; i < cs.N; i++ {
-			if d := cs.depOf(i); d >= 0 {
-				g.Series(vars[0], vars[last], i, d)
+		for w, wr := range cs.T.Wires {
+			if wr.Gate >= 0 {
+				continue
+			}
+			for i := 0; i < cs.N; i++ {
+				if d := cs.depOf(w, i); d >= 0 {
+					g.Series(vars[w], vars[last], i, d)
+				}
 			}
 		}
 		sol, err := g.Solve(api)
@@ -361,8 +469,8 @@ func (cs *Case) Build(withOracle bool) (nSecret int, def func(api frontend.API, 
 			for _, i := range cs.order() {
 				for w, wr := range cs.T.Wires {
 					if wr.Gate < 0 {
-						if w == 0 && cs.depOf(i) >= 0 {
-							direct[w][i] = direct[last][cs.depOf(i)]
+						if cs.depOf(w, i) >= 0 {
+							direct[w][i] = direct[last][cs.depOf(w, i)]
 						} else {
 							direct[w][i] = explicit[w][i]
 						}
